@@ -59,9 +59,17 @@ Ack(o, n) ==
           ELSE \* never sent to n: the map insert marks it acked (harmless), nothing is counted
                entry' = [entry EXCEPT ![o] = [e EXCEPT !.m = [e.m EXCEPT ![n] = "acked"]]]
 
+(* a member leaves the cluster (leave / replicate-leave, its connection dying, a re-join replacing its entry): *)
+(* remove_cluster_member touches the member map only -- an operation that another node has not acknowledged  *)
+(* stays pending, whoever leaves                                                                             *)
+Leave(n) ==
+  /\ hist' = Append(hist, [ev |-> "leave", op |-> 0, node |-> n])
+  /\ UNCHANGED <<sent, acked, entry, dup>>
+
 Next ==
   /\ Len(hist) < MaxLen
-  /\ \E o \in Ops, n \in Nodes : Register(o, n) \/ Ack(o, n)
+  /\ \/ \E o \in Ops, n \in Nodes : Register(o, n) \/ Ack(o, n)
+     \/ \E n \in Nodes : Leave(n)
 
 Spec == Init /\ [][Next]_vars
 
